@@ -3,3 +3,4 @@
 cd /verif
 ov=$(python3 -c "import sys; sys.path.insert(0,'tools'); import seed; print(seed.make_overlay('$1'))")
 VERIF_OVERLAY=$ov VERIF_ONLY=$3 ./check.sh $2 ${4:-quick} 2>&1 | grep -E "^----|^C[0-9]+ (quick|thorough)|VIOLATION|TOOL" | cut -c1-600
+git -C /verif checkout -- evidence/$2.json 2>/dev/null  # the run against the changed tree rewrote it
